@@ -313,17 +313,17 @@ Proof.
 Qed.
 
 (* The Go key is the pair (instance name string, marshalled platform).
-   Given an injective marshaller, two accepted inputs give equal Go keys
-   exactly when instance name and property list are equal; and the model's
-   key equality decides the same. *)
-Lemma key_equal_iff : forall (marshal : list prop -> string),
-  (forall x y, marshal x = marshal y -> x = y) ->
-  forall a b ka kb, build_key a = KOk ka -> build_key b = KOk kb ->
+   Given a marshaller that is injective on a set D of property lists, two
+   accepted inputs in D give equal Go keys exactly when instance name and
+   property list are equal; and the model's key equality decides the same. *)
+Lemma key_equal_iff_on : forall (marshal : list prop -> string) (D : list prop -> Prop),
+  (forall x y, D x -> D y -> marshal x = marshal y -> x = y) ->
+  forall a b ka kb, build_key a = KOk ka -> build_key b = KOk kb -> D (ka_props a) -> D (ka_props b) ->
     ((join_slash (k_inst ka), marshal (k_plat ka)) = (join_slash (k_inst kb), marshal (k_plat kb))
        <-> (ka_inst a = ka_inst b /\ ka_props a = ka_props b)) /\
     (key_eqb ka kb = true <-> (ka_inst a = ka_inst b /\ ka_props a = ka_props b)).
 Proof.
-  intros marshal Hinj a b ka kb Ha Hb.
+  intros marshal D Hinj a b ka kb Ha Hb Da Db.
   destruct (build_key_ok_inv _ _ Ha) as [Ha1 [Ha2 _]].
   destruct (build_key_ok_inv _ _ Hb) as [Hb1 [Hb2 _]].
   pose proof (spec_components_join _ _ Ha1) as Ja. pose proof (spec_components_join _ _ Hb1) as Jb.
@@ -334,4 +334,49 @@ Proof.
   - rewrite key_eqb_eq. split.
     + intros ->. split; congruence.
     + intros [E1 E2]. destruct ka, kb. cbn in *. f_equal; congruence.
+Qed.
+
+Lemma key_equal_iff : forall (marshal : list prop -> string),
+  (forall x y, marshal x = marshal y -> x = y) ->
+  forall a b ka kb, build_key a = KOk ka -> build_key b = KOk kb ->
+    ((join_slash (k_inst ka), marshal (k_plat ka)) = (join_slash (k_inst kb), marshal (k_plat kb))
+       <-> (ka_inst a = ka_inst b /\ ka_props a = ka_props b)) /\
+    (key_eqb ka kb = true <-> (ka_inst a = ka_inst b /\ ka_props a = ka_props b)).
+Proof.
+  intros marshal Hinj a b ka kb Ha Hb.
+  apply (key_equal_iff_on marshal (fun _ => True)); auto.
+Qed.
+
+(* ---- the canonical string is injective on quote-free strings ------------------------------ *)
+Definition dquote : ascii := """"%char.
+Fixpoint quote_free (s : string) : Prop :=
+  match s with EmptyString => True | String c r => c <> dquote /\ quote_free r end.
+Definition quote_free_props (ps : list prop) : Prop :=
+  Forall (fun p => quote_free (fst p) /\ quote_free (snd p)) ps.
+
+Lemma plain_char_not_quote : forall c, plain_char c = true -> c <> dquote.
+Proof. intros c H ->. vm_compute in H. discriminate. Qed.
+
+Lemma plain_string_quote_free : forall s, plain_string s = true -> quote_free s.
+Proof.
+  induction s as [|c r IH]; cbn; [trivial|]. intro H. apply andb_true_iff in H. destruct H as [H1 H2].
+  split; [apply plain_char_not_quote; assumption|apply IH; assumption].
+Qed.
+
+Lemma plain_props_quote_free : forall ps, plain_props ps = true -> quote_free_props ps.
+Proof.
+  intros ps H. unfold plain_props in H. rewrite forallb_forall in H. apply Forall_forall. intros p Hp.
+  specialize (H p Hp). apply andb_true_iff in H. destruct H. split; apply plain_string_quote_free; assumption.
+Qed.
+
+(* a quote-free string is delimited by the first quote *)
+Lemma quote_split : forall n1 n2 k1 k2, quote_free n1 -> quote_free n2 ->
+  n1 ++ String dquote k1 = n2 ++ String dquote k2 -> n1 = n2 /\ k1 = k2.
+Proof.
+  induction n1 as [|c n1 IH]; intros [|d n2] k1 k2 Q1 Q2 H; cbn in *.
+  - injection H as ->. auto.
+  - injection H as E _. exfalso. destruct Q2 as [Q2 _]. congruence.
+  - injection H as E _. exfalso. destruct Q1 as [Q1 _]. congruence.
+  - injection H as -> H. destruct Q1 as [_ Q1]. destruct Q2 as [_ Q2].
+    destruct (IH _ _ _ Q1 Q2 H) as [-> ->]. auto.
 Qed.
